@@ -4,65 +4,76 @@ using namespace vf;
 
 namespace {
 
+// dynamic state of one TPDO; where the statement leaves a choice (first event-timer expiry after activation of TPDO
+// number n: any tick in [E, E+n]) several alternatives are tracked and an alternative is dropped when the node's
+// behaviour contradicts it; the check fails when none is left
+struct Dyn { long inh_end = -1, ev_due = -1; bool pending = false; int synccnt = 0; std::vector<std::vector<uint8_t>> out; };
 struct MP {
-  bool present = false, en = false; int type = 254; long I = 0, E = 0; long inh_end = -1, ev_due = -1; bool pending = false; int synccnt = 0; bool insync = false;
+  bool present = false, en = false; int type = 254; long I = 0, E = 0; bool insync = false;
+  std::vector<Dyn> alt = std::vector<Dyn>(1);
   std::vector<int> objs; std::vector<int> bytes; TpdoCfg cfg; uint32_t id = 0;
 };
-struct Em { int pdo; std::vector<uint8_t> d; };
 
 struct C12 {
   Ctx &c; Sim s; World w;
   MP mp[4]; TObj *ob[5]; int mode = 2; long T = 0;
-  std::vector<Em> exp;
   int ov_obj = -1; std::vector<uint8_t> ov_val;   // value an object had at the moment of an emission that preceded a later write of the same step
   int deferred = 0, by_event = 0, by_sync = 0, ties = 0;
   explicit C12(Ctx &cx) : c(cx), s(cx), w(s) {}
 
-  void emit(int p) {
-    Em e; e.pdo = p;
-    for (size_t i = 0; i < mp[p].objs.size(); i++) { int o = mp[p].objs[i]; std::vector<uint8_t> v = (o == ov_obj) ? ov_val : w.content(*ob[o]); for (int k = 0; k < mp[p].bytes[i]; k++) e.d.push_back(v[k]); }
-    exp.push_back(e);
+  std::vector<uint8_t> content_now(int p) {
+    std::vector<uint8_t> d;
+    for (size_t i = 0; i < mp[p].objs.size(); i++) { int o = mp[p].objs[i]; std::vector<uint8_t> v = (o == ov_obj) ? ov_val : w.content(*ob[o]); for (int k = 0; k < mp[p].bytes[i]; k++) d.push_back(v[k]); }
+    return d;
   }
-  void tx(int p, int why) {   // why: 0 trigger, 1 inhibit end, 2 event timer, 3 sync
+  void tx1(int p, Dyn &a, int why, bool stats) {   // why: 0 trigger, 1 inhibit end, 2 event timer, 3 sync
     MP &m = mp[p];
     if (mode != 3 || !m.present || !m.en) return;
-    if (m.inh_end >= 0) { m.pending = true; return; }
-    m.ev_due = -1; if (m.I > 0) m.inh_end = T + m.I; if (m.E > 0) m.ev_due = T + m.E;
-    if (why == 1) deferred++; else if (why == 2) by_event++; else if (why == 3) by_sync++;
-    emit(p);
+    if (a.inh_end >= 0) { a.pending = true; return; }
+    a.ev_due = -1; if (m.I > 0) a.inh_end = T + m.I; if (m.E > 0) a.ev_due = T + m.E;
+    if (stats) { if (why == 1) deferred++; else if (why == 2) by_event++; else if (why == 3) by_sync++; }
+    a.out.push_back(content_now(p));
   }
+  void tx(int p, int why) { for (size_t k = 0; k < mp[p].alt.size(); k++) tx1(p, mp[p].alt[k], why, k == 0); }
   void activate(int p) {      // (re)activation: entering OPERATIONAL, or re-validating / rewriting the COB-ID while OPERATIONAL
     MP &m = mp[p]; if (!m.present) return;
-    m.inh_end = -1; m.pending = false; m.ev_due = -1; m.synccnt = 0; m.insync = false;
+    m.insync = false;
     m.type = *m.cfg.type; m.I = *m.cfg.inhibit / 10; m.E = m.type >= 254 ? *m.cfg.event : 0; m.en = !(*m.cfg.id & 0x80000000u);
     if (m.en && m.type <= 240) m.insync = true;
-    if (m.E > 0) m.ev_due = T + m.E + p;    // the stack staggers the first expiry by the PDO number
+    std::vector<std::vector<uint8_t>> keep; if (!m.alt.empty()) keep = m.alt[0].out;
+    m.alt.clear();
+    // first event-timer expiry after activation: the statement admits any tick in [E, E+n] for TPDO number n
+    for (int d = 0; d <= (m.E > 0 ? p : 0); d++) { Dyn a; a.out = keep; if (m.E > 0) a.ev_due = T + m.E + d; m.alt.push_back(a); }
   }
   void tick() {
     T++;
     for (int p = 0; p < 4; p++) { MP &m = mp[p]; if (!m.present) continue;
-      if (m.inh_end == T && m.ev_due == T && m.pending) ties++;
-      if (m.inh_end == T) { m.inh_end = -1; if (m.pending) { m.pending = false; tx(p, 1); } }   // ties: inhibit first
-      if (m.ev_due == T) { m.ev_due = -1; tx(p, 2); } }
+      for (size_t k = 0; k < m.alt.size(); k++) { Dyn &a = m.alt[k];
+        if (k == 0 && a.inh_end == T && a.ev_due == T && a.pending) ties++;
+        if (a.inh_end == T) { a.inh_end = -1; if (a.pending) { a.pending = false; tx1(p, a, 1, k == 0); } }   // ties: inhibit first
+        if (a.ev_due == T) { a.ev_due = -1; tx1(p, a, 2, k == 0); } } }
   }
   void compare(const char *what) {
     std::vector<Frame> got; for (auto &t : s.tx) if (t.id != w.rsp[0]) got.push_back(t);
-    std::string detail;
-    if (got.size() != exp.size()) {
-      for (auto &g : got) detail += " got " + g.str() + ";"; for (auto &e : exp) detail += " expected TPDO " + std::to_string(e.pdo) + ";";
-      c.fail(got.size() > exp.size() ? "unrequested-transmission" : "lost-or-blocked-transmission", "%s at tick %ld (mode %d): %zu TPDO frame(s) transmitted, %zu expected:%s", what, T, mode, got.size(), exp.size(), detail.c_str());
-    }
-    for (auto &e : exp) {
-      bool found = false;
-      for (auto &g : got) if (g.id == mp[e.pdo].id && g.dlc == e.d.size() && !memcmp(g.d, e.d.data(), e.d.size())) { g.id = 0xFFFFFFFF; found = true; break; }
-      if (!found) {
-        for (auto &g : got) detail += " got " + g.str() + ";";
-        Frame x; x.id = mp[e.pdo].id; x.dlc = (uint8_t)e.d.size(); memcpy(x.d, e.d.data(), e.d.size());
-        c.fail("frame-content", "%s at tick %ld: expected TPDO %d frame %s (mapped values, little-endian, DLC = mapped bytes) not transmitted;%s", what, T, e.pdo, x.str().c_str(), detail.c_str());
+    for (auto &g : got) { bool known = false; for (int p = 0; p < 4; p++) if (mp[p].present && g.id == mp[p].id) known = true;
+      if (!known) c.fail("unrequested-transmission", "%s at tick %ld (mode %d): the node transmitted %s, which is no configured TPDO", what, T, mode, g.str().c_str()); }
+    for (int p = 0; p < 4; p++) { MP &m = mp[p]; if (!m.present) continue;
+      std::vector<std::vector<uint8_t>> obs; for (auto &g : got) if (g.id == m.id) obs.push_back(std::vector<uint8_t>(g.d, g.d + (g.dlc > 8 ? 8 : g.dlc)));
+      std::sort(obs.begin(), obs.end());
+      std::vector<Dyn> left;
+      for (auto &a : m.alt) { std::vector<std::vector<uint8_t>> e = a.out; std::sort(e.begin(), e.end()); if (e == obs) { Dyn b = a; b.out.clear(); left.push_back(b); } }
+      if (left.empty()) {
+        const Dyn &a = m.alt[0]; std::string detail;
+        for (auto &g : got) if (g.id == m.id) detail += " got " + g.str() + ";";
+        for (auto &e : a.out) { Frame x; x.id = m.id; x.dlc = (uint8_t)e.size(); memcpy(x.d, e.data(), e.size()); detail += " expected " + x.str() + ";"; }
+        const char *clause = obs.size() > a.out.size() ? "unrequested-transmission" : obs.size() < a.out.size() ? "lost-or-blocked-transmission" : "frame-content";
+        c.fail(clause, "%s at tick %ld (mode %d): TPDO %d: %zu frame(s) transmitted, %zu expected (mapped values, little-endian, DLC = mapped bytes; %zu admissible timing alternative(s) considered):%s", what, T, mode, p, obs.size(), a.out.size(), m.alt.size(), detail.c_str());
       }
+      // alternatives that agree so far and have become indistinguishable are merged
+      std::vector<Dyn> uniq; for (auto &a : left) { bool dup = false; for (auto &u : uniq) if (u.inh_end == a.inh_end && u.ev_due == a.ev_due && u.pending == a.pending && u.synccnt == a.synccnt) dup = true; if (!dup) uniq.push_back(a); }
+      m.alt = uniq;
     }
-    // the application callback sees every transmitted PDO
-    s.clear_tx(); s.clear_ev(); exp.clear();
+    s.clear_tx(); s.clear_ev();
   }
 };
 
@@ -105,9 +116,9 @@ void one_case(Ctx &c) {
     steps++; c.ops++;
     static const uint16_t W[12] = {60, 10, 14, 14, 6, 12, 8, 8, 4, 4, 4, 4};
     uint32_t op = c.t.weighted(W);
-    s.clear_tx(); s.clear_ev(); x.exp.clear();
+    s.clear_tx(); s.clear_ev(); for (int p = 0; p < 4; p++) for (auto &a : x.mp[p].alt) a.out.clear();
     if (op == 0) { s.step_tick(); x.tick(); VLOG(c, "tick -> %ld", x.T); x.compare("tick"); }
-    else if (op == 1) { uint32_t n = 2 + c.t.below(12); for (uint32_t i = 0; i < n; i++) { s.clear_tx(); x.exp.clear(); s.step_tick(); x.tick(); x.compare("tick"); } VLOG(c, "%u ticks -> %ld", n, x.T); }
+    else if (op == 1) { uint32_t n = 2 + c.t.below(12); for (uint32_t i = 0; i < n; i++) { s.clear_tx(); s.step_tick(); x.tick(); x.compare("tick"); } VLOG(c, "%u ticks -> %ld", n, x.T); }
     else if (op == 2) { int p = (int)c.t.below(4); VLOG(c, "COTPdoTrigPdo(%d)", p); s.api_begin(); COTPdoTrigPdo(s.node->TPdo, (uint16_t)p); s.api_end("COTPdoTrigPdo"); x.tx(p, 0); x.compare("explicit trigger"); }
     else if (op == 3) {   // change a value through the API: asynchronous objects trigger when the value changes
       int o = (int)c.t.below(5); uint32_t v = c.t.chance(100) ? (uint32_t)x.w.content(*x.ob[o])[0] : c.t.u32(); if (o == 4) v &= 0x00FFFFFF;
@@ -122,7 +133,7 @@ void one_case(Ctx &c) {
       s.api_begin(); COTPdoTrigObj(s.node->TPdo, s.find(0x2100, (uint8_t)(o + 1))); s.api_end("COTPdoTrigObj"); trig_obj_changed(o); x.compare("object trigger");
     } else if (op == 5) { // SYNC
       VLOG(c, "SYNC"); s.rx(Frame::mk(0x80, 0, {}));
-      if (x.mode == 2 || x.mode == 3) for (int p = 0; p < 4; p++) { MP &m = x.mp[p]; if (m.present && m.insync) { m.synccnt++; if (m.synccnt == m.type) { x.tx(p, 3); m.synccnt = 0; } } }
+      if (x.mode == 2 || x.mode == 3) for (int p = 0; p < 4; p++) { MP &m = x.mp[p]; if (m.present && m.insync) for (size_t k = 0; k < m.alt.size(); k++) { Dyn &a = m.alt[k]; a.synccnt++; if (a.synccnt == m.type) { x.tx1(p, a, 3, k == 0); a.synccnt = 0; } } }
       x.compare("SYNC");
     } else if (op == 6) { // NMT
       int nm = x.mode == 3 ? (c.t.coin() ? 2 : 4) : 3;
@@ -134,8 +145,9 @@ void one_case(Ctx &c) {
       static const uint16_t EV[5] = {0, 3, 6, 9, 1}; uint16_t ev = EV[c.t.below(5)];
       uint32_t code = cl.write((uint16_t)(0x1800 + p), 5, ev, 2); s.tx = cl.foreign; cl.foreign.clear(); CHECK(c, code == 0, "event-time-write", "write to 18%02Xh:5 refused with %08X", p, code);
       VLOG(c, "18%02Xh:5 := %u", p, ev);
-      MP &m = x.mp[p]; m.ev_due = -1; bool pend = m.pending; m.pending = false; m.inh_end = -1;
-      if (m.en && x.mode == 3) { if (m.type >= 254 || true) m.E = ev; if (pend) x.tx(p, 1); else if (m.E > 0) m.ev_due = x.T + m.E; }
+      MP &m = x.mp[p]; bool newE = m.en && x.mode == 3; if (newE) m.E = ev;
+      for (size_t k = 0; k < m.alt.size(); k++) { Dyn &a = m.alt[k]; a.ev_due = -1; bool pend = a.pending; a.pending = false; a.inh_end = -1;
+        if (newE) { if (pend) x.tx1(p, a, 1, k == 0); else if (m.E > 0) a.ev_due = x.T + m.E; } }
       x.compare("event-time write");
     } else if (op == 8) { // SDO write through which an asynchronous object changes
       if (x.mode == 4) continue; int o = c.t.coin() ? 0 : 2; uint32_t v = c.t.u16(); if (o == 0) v &= 0xFF;
@@ -174,7 +186,7 @@ Registrar reg(Prop{
     "Non-trivial: >= 1 emission deferred by the inhibit time or produced by the event timer or by the SYNC count. Distinct = distinct decoded choice sequence.",
     {Mode{"random", one_case, false, 2000000, 30000000, 0, 0, 300, 500}},
     {"timer frequency 1000 Hz: inhibit times are multiples of 1 ms (10 x 100 us), event times whole ms",
-     "the first event-timer expiry after activation of TPDO number n is expected at E + n ticks (the stack staggers start-up deliberately)",
+     "the first event-timer expiry after activation of TPDO number n may fall on any tick in [E, E+n] (the stack staggers start-up by the PDO number; the statement does not fix it): alternatives are tracked per TPDO and dropped when contradicted",
      "a write to the event time while the PDO runs restarts its timing and releases a waiting transmission at once (the behaviour the repository's unit test ut-pdo-event implies); the alternative 'inhibit window continues' named in DESIGN.md would need a second model state and is not admitted by this check",
      "type 0 (acyclic synchronous) and inhibit times on synchronous TPDOs are outside the statement and not generated"}});
 
